@@ -13,104 +13,10 @@ import (
 
 	. "adharness/common"
 
-	ad "github.com/pbenner/autodiff"
-	"github.com/pbenner/autodiff/statistics"
-	"github.com/pbenner/autodiff/statistics/scalarEstimator"
-	"github.com/pbenner/autodiff/statistics/vectorEstimator"
 	tp "github.com/pbenner/threadpool"
 )
 
 // ---------------------------------------------------------------- full estimators (EvaluateLogPdf + step + nested Emissions)
-
-type FullCfg struct {
-	Kind  string      `json:"kind"` // "hmm" | "mixture"
-	Seqs  [][]float64 `json:"seqs"`
-	Steps int         `json:"steps"`
-}
-
-func genFull(r *Rng) *FullCfg {
-	c := &FullCfg{Kind: []string{"hmm", "mixture", "hmm-poisson", "mixture-poisson"}[r.Intn(4)], Steps: r.Range(1, 3)}
-	ns := []int{1, 2, 3, 5, 9}[r.Intn(5)]
-	poisson := c.Kind == "hmm-poisson" || c.Kind == "mixture-poisson"
-	if c.Kind == "mixture" || c.Kind == "mixture-poisson" {
-		ns = 1
-	}
-	for s := 0; s < ns; s++ {
-		l := r.Range(2, 7)
-		if ns == 1 && c.Kind != "hmm" && c.Kind != "hmm-poisson" {
-			l = []int{3, 5, 8, 12, 17}[r.Intn(5)]
-		}
-		seq := make([]float64, l)
-		for i := range seq {
-			base := -2.0
-			if r.Bool() {
-				base = 3.0
-			}
-			seq[i] = base + dy(r, -1, 1, 4)
-			if poisson {
-				// counts: emission distributions with internal scratch state (PoissonDistribution.t)
-				seq[i] = float64(r.Range(0, 3))
-				if r.Bool() {
-					seq[i] = float64(r.Range(5, 12))
-				}
-			}
-		}
-		c.Seqs = append(c.Seqs, seq)
-	}
-	return c
-}
-
-func runFull(cfg *FullCfg, pc PoolCfg) (par []float64, errd bool, panicked string) {
-	defer func() {
-		if r := recover(); r != nil {
-			panicked = fmt.Sprint(r)
-		}
-	}()
-	pool := newPool(pc)
-	defer pool.Stop()
-	e1, _ := scalarEstimator.NewNormalEstimator(-1.0, 2.0, 1e-4)
-	e2, _ := scalarEstimator.NewNormalEstimator(2.0, 2.0, 1e-4)
-	var p ad.Vector
-	var aerr error
-	var s1, s2 statistics.ScalarEstimator = e1, e2
-	kind := cfg.Kind
-	if kind == "hmm-poisson" || kind == "mixture-poisson" {
-		p1, _ := scalarEstimator.NewPoissonEstimator(1.5)
-		p2, _ := scalarEstimator.NewPoissonEstimator(7.0)
-		s1, s2 = p1, p2
-		kind = kind[:len(kind)-8]
-	}
-	switch kind {
-	case "hmm":
-		pi := ad.NewDenseFloat64Vector([]float64{0.6, 0.4})
-		tr := ad.NewDenseFloat64Matrix([]float64{0.7, 0.3, 0.4, 0.6}, 2, 2)
-		est, err := vectorEstimator.NewHmmEstimator(pi, tr, nil, nil, nil, []statistics.ScalarEstimator{s1, s2}, 0.0, cfg.Steps)
-		if err != nil {
-			panic(err)
-		}
-		xs := make([]ad.ConstVector, len(cfg.Seqs))
-		for i, s := range cfg.Seqs {
-			xs[i] = ad.NewDenseFloat64Vector(append([]float64{}, s...))
-		}
-		inPool(pool, pc.Nested, func(q tp.ThreadPool) { aerr = est.EstimateOnData(xs, nil, q) })
-		p = est.GetParameters()
-	case "mixture":
-		est, err := scalarEstimator.NewMixtureEstimator([]float64{0.5, 0.5}, []statistics.ScalarEstimator{s1, s2}, 0.0, cfg.Steps)
-		if err != nil {
-			panic(err)
-		}
-		x := ad.NewDenseFloat64Vector(append([]float64{}, cfg.Seqs[0]...))
-		inPool(pool, pc.Nested, func(q tp.ThreadPool) { aerr = est.EstimateOnData(x, nil, q) })
-		p = est.GetParameters()
-	}
-	errd = aerr != nil
-	if p != nil {
-		for i := 0; i < p.Dim(); i++ {
-			par = append(par, p.ConstAt(i).GetFloat64())
-		}
-	}
-	return
-}
 
 func near(a, b []float64, rel float64) bool {
 	if len(a) != len(b) {
@@ -139,6 +45,8 @@ type Config struct {
 	Nm   *NormalCfg `json:"normal,omitempty"`
 	X    *XCfg      `json:"x,omitempty"`
 	Full *FullCfg   `json:"full,omitempty"`
+	Saga *SagaCfg   `json:"saga,omitempty"`
+	Num  *NumericCfg `json:"numeric,omitempty"`
 }
 
 func flat(xs ...interface{}) []float64 {
@@ -180,6 +88,15 @@ func (c *Config) run(pc PoolCfg) (obs []float64, errd bool, panicked string) {
 		return runX(c.X, pc)
 	case "full":
 		return runFull(c.Full, pc)
+	case "saga":
+		// only the schedule-independent observables: the worker partition and the error flag (the estimate
+		// itself is subject to the known finding F-SAGA-THETA-RACE and is compared, with retries, by the
+		// correspondence stream); reference = the same partition executed sequentially
+		o, pn := runSaga(c.Saga, pc, pc.K == 1)
+		return []float64{float64(len(o.Theta))}, o.Err, pn
+	case "numeric":
+		o, pn := runNumeric(c.Num, -1, pc)
+		return o.Par, o.Err, pn
 	}
 	return nil, false, "unknown site"
 }
@@ -215,11 +132,19 @@ func (c *Config) oracle(pc PoolCfg, deadline time.Duration) string {
 }
 
 func genConfig(r *Rng) *Config {
-	switch r.Intn(6) {
+	switch r.Intn(9) {
+	case 6:
+		return &Config{Site: "saga", Saga: genSaga(r)}
+	case 7:
+		return &Config{Site: "numeric", Num: genNumeric(r)}
 	case 0:
-		return &Config{Site: "em", Em: genEm(r)}
+		c := &Config{Site: "em", Em: genEm(r)}
+		c.Em.NoEmis, c.Em.NoWeights = r.Intn(3) == 0, r.Intn(3) == 0
+		return c
 	case 1:
-		return &Config{Site: "bw", Bw: genBw(r)}
+		c := &Config{Site: "bw", Bw: genBw(r)}
+		c.Bw.NoEmis = r.Intn(3) == 0
+		return c
 	case 2:
 		return &Config{Site: "normal", Nm: genNormal(r)}
 	case 3:
@@ -367,6 +292,12 @@ func fromRaw(rc *RawCase) *Config {
 		return &Config{Site: "normal", Nm: rc.Nm}
 	case rc.X != nil:
 		return &Config{Site: "x", X: rc.X}
+	case rc.Full != nil:
+		return &Config{Site: "full", Full: rc.Full}
+	case rc.Saga != nil:
+		return &Config{Site: "saga", Saga: rc.Saga}
+	case rc.Num != nil:
+		return &Config{Site: "numeric", Num: rc.Num}
 	}
 	return nil
 }
@@ -477,9 +408,16 @@ func replayMain(o Opts) {
 	w := NewCaseWriter(o.Out, "replay", header, "mism", 40)
 	w.Type = "case"
 	g := &gen{w: w, tol: &tolWriter{dir: o.Out, per: 12}, rng: r, tier: "quick"}
-	rc := RawCase{Em: c.Em, Bw: c.Bw, Nm: c.Nm, X: c.X}
+	g.ow = NewCaseWriter(o.Out, "oreplay", oheader, "omism", 30)
+	g.ow.Type = "ocase"
+	g.sw = NewCaseWriter(o.Out, "sreplay", oheader, "sagamism", 200)
+	g.sw.Type = "sagacase"
+	g.noTransPanics, _ = bwNoTransPanics()
+	rc := RawCase{Em: c.Em, Bw: c.Bw, Nm: c.Nm, X: c.X, Full: c.Full, Saga: c.Saga, Num: c.Num}
 	g.replayInto(&rc)
 	w.Flush()
+	g.ow.Flush()
+	g.sw.Flush()
 	g.tol.flush()
 }
 
